@@ -98,6 +98,11 @@ pub fn values() -> Vec<Val> {
         .collect()
 }
 
+pub fn static_values() -> &'static [Val] {
+    static V: std::sync::OnceLock<Vec<Val>> = std::sync::OnceLock::new();
+    V.get_or_init(values)
+}
+
 pub const COUNTS: &[u64] = &[0, 1, 2, 3, 4, 5, 6, 10, 11, 12, 20, 21, 22, 23, 100, 101, 102, 111, 1000, 1000000];
 
 fn icu_locale(loc: &str) -> icu_locid::Locale {
